@@ -58,7 +58,7 @@ Proof. intros. unfold ser_header. rewrite map_app, concat_app. auto. Qed.
 
 Section Read.
 Variable H : bytes -> N.
-Variable kvs : list kv.
+Variable kvs : list (bytes * bytes).
 Variable img : image.
 Hypothesis Hrange : forall k, H k < 4294967296.
 Hypothesis Hf : fits32 kvs.
@@ -172,7 +172,7 @@ Lemma read_rec : forall pos k v, In (pos, (k, v)) (irecs img) ->
 Proof.
   intros pos k v Hin.
   destruct (in_split _ _ Hin) as [l1 [l2 E]].
-  destruct (rec_bounds l1 _ l2 E) as [Hp Hb]. simpl in Hp, Hb. unfold rec_size in Hb. simpl in Hb.
+  destruct (rec_bounds l1 _ l2 E) as [Hp Hb]. cbn [fst snd] in Hp, Hb. unfold rec_size in Hb. cbn [fst snd] in Hb.
   destruct (fits32_data kvs Hf) as [Hd _]. unfold header_size in *.
   assert (Hk : nlen k < 4294967296) by lia.
   assert (Hv : nlen v < 4294967296) by lia.
